@@ -531,7 +531,7 @@ func pemStructural(rng *rand.Rand, base []byte, typ string) ([]byte, string) {
 	if blk == nil {
 		return base, "pem: not pem"
 	}
-	switch rng.IntN(9) {
+	switch rng.IntN(10) {
 	case 0:
 		types := []string{"PRIVATE KEY", "EC PRIVATE KEY", "RSA PRIVATE KEY", "CERTIFICATE", "X509 CRL", "", "ENCRYPTED PRIVATE KEY", "PUBLIC KEY"}
 		blk.Type = types[rng.IntN(len(types))]
@@ -555,6 +555,30 @@ func pemStructural(rng *rand.Rand, base []byte, typ string) ([]byte, string) {
 		b, d := havoc(rng, blk.Bytes, nil, 1+rng.IntN(3))
 		blk.Bytes = b
 		return pem.EncodeToMemory(blk), "pem: inner " + d
+	case 8:
+		// multi-block layouts: leading / trailing / only blocks of other types
+		// (openssl writes EC PARAMETERS in front of an EC key)
+		other := func() []byte {
+			t := []string{"EC PARAMETERS", "DH PARAMETERS", "CERTIFICATE", "PUBLIC KEY", "X509 CRL", "EC PARAMETERS"}[rng.IntN(6)]
+			return pem.EncodeToMemory(&pem.Block{Type: t, Bytes: []byte{0x06, 0x08, 0x2a, 0x86, 0x48, 0xce, 0x3d, 0x03, 0x01, 0x07}})
+		}
+		var out []byte
+		for k := rng.IntN(4); k >= 0; k-- {
+			out = append(out, other()...)
+		}
+		desc := "pem: other blocks"
+		switch rng.IntN(4) {
+		case 0:
+			out = append(out, base...)
+			desc += " then the key"
+		case 1:
+			out = append(out, []byte("some trailing text\n")...)
+			desc += " then text"
+		case 2:
+			out = append(out, base[:len(base)/2]...)
+			desc += " then a truncated key block"
+		}
+		return out, desc
 	default:
 		return bytes.Repeat(base, 1+rng.IntN(40)), "pem: repeated"
 	}
